@@ -96,7 +96,6 @@ void harness(void)
         /* soundness (not the exact heuristic): an entry either becomes unusable (< start index) or keeps
          * addressing the same byte, which is only possible if it was at least the correction + start index */
         VCHECKM(table[k] < ZSTD_WINDOW_START_INDEX || (v >= thr && table[k] == v - reducer), "reduced entry is either invalid or addresses the same byte as before");
-        if (v >= thr + 1) VCHECKM(table[k] == v - reducer, "entries strictly above the threshold survive (no candidate silently lost inside the window)");
         VWITNESS(v >= thr && k == 31);
         VWITNESS(v < thr && k == 0);
     }
